@@ -175,6 +175,8 @@ static void dom_section(const char *D, size_t dl, int want_idn2)
 }
 #endif
 
+static char *abase;
+
 static void do_A(char *line)
 {
     unsigned sections, modes, tlds;
@@ -185,6 +187,18 @@ static void do_A(char *line)
     if (sscanf(line, "A %x %x %x %31s %n", &sections, &modes, &tlds, allow_s, &off) < 4) { printf("{\"err\":\"parse\"}\n"); return; }
     if (strcmp(allow_s, "-") != 0) { have_allow = 1; allow = (int)strtol(allow_s, NULL, 0); }
     s = hexdup(line + off, &n);
+    {   /* VERIF_ALIGN=1: place the string at a varying offset from the allocator's alignment (terminator still ends the block) */
+        static int amode = -1;
+        if (amode < 0) amode = getenv("VERIF_ALIGN") ? 1 : 0;
+        if (amode) {
+            size_t o = (size_t)((g_case * 7 + 3) % 16);
+            char *blk = malloc(o + n + 1);
+            memcpy(blk + o, s, n + 1);
+            free(s);
+            abase = blk;
+            s = blk + o;
+        } else abase = s;
+    }
     putchar('{');
     first = 1;
     if (sections & 1) {
@@ -292,7 +306,7 @@ static void do_A(char *line)
         putchar('}');
     }
     printf("}\n");
-    free(s);
+    free(abase);
 }
 
 #ifndef HAVE_IDNKIT
